@@ -280,11 +280,45 @@ def check_oracle(ck, tpl, files, q, kind, val, case, black_ok):
                 ck.violation(label(""), f"time bundles not one per bin in ascending order: {bins[:8]}", case)
 
 
-def run_population(ck, rng, scratch, tpl, files, time_cov, queries, extra, use_model=True, zipfs=False, tag="gen"):
+def tie_groups(ids, byid):
+    """[3, 1, 4] -> consecutive runs of equal sort key, each as a sorted id list (the order inside a
+    run of equal (t0, t1) is the traversal order of the file system: not part of the property)"""
+    out = []
+    for i in ids:
+        key = (byid[i].t0, byid[i].t1)
+        if out and out[-1][0] == key:
+            out[-1][1].append(i)
+        else:
+            out.append((key, [i]))
+    return [sorted(g) for _, g in out]
+
+
+def canon_answer(val, q, byid):
+    """what of an answer the property (and hence the correspondence) fixes: unsorted -> the multiset;
+    sorted -> the sequence with ties on (t0, t1) as multisets; count bundles -> that sequence and the
+    bundle sizes; frequency bundles -> each bundle with its ties as multisets"""
+    if q["bundle"] is None:
+        return tie_groups(val, byid) if q["sort"] else sorted(val)
+    if isinstance(q["bundle"], int):
+        return [len(b) for b in val], tie_groups([i for b in val for i in b], byid)
+    return [tie_groups(b, byid) for b in val]
+
+
+def parse_model_answer(m, q):
+    body = m[2:].strip()
+    if q["bundle"] is None:
+        return [int(x) for x in body.split()]
+    return [[int(x) for x in b.split()] for b in body.split("/")] if body else []
+
+
+def run_population(ck, rng, scratch, tpl, files, time_cov, queries, extra, use_model=True, zipfs=False, tag="gen",
+                   ddirs=None):
     """one directory tree + its queries on real code, model and oracle"""
     root = tempfile.mkdtemp(dir=scratch)
     try:
-        paths = G.build_tree(root, tpl, files, rng)
+        if ddirs is None:
+            ddirs = G.decoy_dirs(rng, tpl, files, rng.choice([0, 1, 3]))
+        paths = G.build_tree(root, tpl, files, rng, ddirs=ddirs)
         if zipfs:
             from fsspec.implementations.zip import ZipFileSystem
             zp = os.path.join(root, "tree.zip")
@@ -296,7 +330,8 @@ def run_population(ck, rng, scratch, tpl, files, time_cov, queries, extra, use_m
         paths_of = {i: p for p, i in ids.items()}
         honour = G.honours(tpl, files)
         base_case = {"op": "find", "template": tpl.to_json(), "files": [f.to_json() for f in files],
-                     "time_cov_us": None if time_cov is None else time_cov // G.US, "zip": zipfs}
+                     "time_cov_us": None if time_cov is None else time_cov // G.US, "zip": zipfs, "decoy_dirs": ddirs}
+        byid = {f.id: f for f in files}
         # the harness' own idea of every coverage must be what the code parses (C02's business otherwise)
         for f in files:
             try:
@@ -360,8 +395,11 @@ def run_population(ck, rng, scratch, tpl, files, time_cov, queries, extra, use_m
                 else:
                     code = ("ok " + " / ".join(" ".join(map(str, b)) for b in val)).strip()
                 m = m.strip()
-                if zipfs and kind == "ok" and not q["sort"] and q["bundle"] is None:
-                    same = sorted(m.split()) == sorted(code.split())     # glob order of the archive is not modelled
+                if kind == "ok" and m.startswith("ok"):
+                    # traversal order (unsorted answers, ties on the sort key) is diagnostic only
+                    same = canon_answer(parse_model_answer(m, q), q, byid) == canon_answer(val, q, byid)
+                    if same and m != code:
+                        ck.count("diagnostic/order-of-ties-or-unsorted-differs")
                 else:
                     same = m == code
                 if not same and code == "err other:TypeError" and isinstance(q["bundle"], str) and m == "ok":
@@ -414,49 +452,55 @@ def gen_extra(rng, tpl, files):
     return ex
 
 
-def single_cases(ck, rng, scratch, use_model=True):
-    """single-file filesets: the coverage comes from time_coverage"""
+def run_single(ck, scratch, case, use_model=True):
+    """one query on a single-file fileset described by `case` (also used by --replay)"""
     from typhon.files import FileSet
     root = tempfile.mkdtemp(dir=scratch)
     try:
         p = os.path.join(root, "single.dat")
-        exists = rng.random() < 0.85
+        exists = case["exists"]
         if exists:
             open(p, "w").close()
-        o = G.gen_origin(rng, G.Template([], "{year}.dat"))
-        cov = None if rng.random() < 0.3 else (o, o + rng.choice([dt.timedelta(0), dt.timedelta(hours=5), dt.timedelta(days=40)]))
+        cov = None if case["cov"] is None else (G.from_iso(case["cov"][0]), G.from_iso(case["cov"][1]))
+        s, e, nf = G.from_iso(case["start"]), G.from_iso(case["end"]), case["nferr"]
         fs = FileSet(p, time_coverage=cov)
         c0, c1 = (G.MIN, G.MAX) if cov is None else cov
-        for _ in range(4):
-            s = rng.choice([None, c0, c1, c0 + G.US] + ([c1 + G.US, c0 - dt.timedelta(days=2)] if cov else []))
-            e = rng.choice([None, c0, c0 + G.US, c1, s] + ([c1 + dt.timedelta(days=2)] if cov else []))
-            nf = rng.random() < 0.5
-            try:
-                got = "ok " + str(len(list(fs.find(s, e, no_files_error=nf))))
-            except Exception as ex:  # noqa
-                got = "err " + G.err_class(ex)
-            case = {"op": "single", "exists": exists, "cov": [G.iso(c0), G.iso(c1)] if cov else None, "start": G.iso(s), "end": G.iso(e), "nferr": nf}
-            ck.case(kind="single/" + got.replace(" ", "-"))
-            if e is not None and e == G.MIN:
-                want = "err overflow"
-            elif (G.MAX if e is None else e) <= (G.MIN if s is None else s):
-                want = "err valueError"
-            elif e is not None and e == G.MIN:
-                want = "err overflow"
-            elif not exists:
-                want = "err valueError"
-            else:
-                hit = (e is None or c0 < e) and (s is None or c1 >= s)
-                want = "ok 1" if hit else ("err noFiles" if nf else "ok 0")
-            if got != want:
-                ck.violation("other", f"single-file fileset find({G.iso(s)}, {G.iso(e)}) = {got}, expected {want}", case)
-            if use_model:
-                line = f"single {int(exists)} {G.us(c0)} {G.us(c1)} {'-' if s is None else G.us(s)} {'-' if e is None else G.us(e)} {int(nf)}"
-                m = ck.driver([line])[0]
-                if m != got:
-                    ck.disagree(f"single: model '{m}' vs code '{got}'", case)
+        try:
+            got = "ok " + str(len(list(fs.find(s, e, no_files_error=nf))))
+        except Exception as ex:  # noqa
+            got = "err " + G.err_class(ex)
+        ck.case(kind="single/" + got.replace(" ", "-"))
+        if e is not None and e == G.MIN:
+            want = "err overflow"
+        elif (G.MAX if e is None else e) <= (G.MIN if s is None else s):
+            want = "err valueError"
+        elif not exists:
+            want = "err valueError"
+        else:
+            hit = (e is None or c0 < e) and (s is None or c1 >= s)
+            want = "ok 1" if hit else ("err noFiles" if nf else "ok 0")
+        if got != want:
+            ck.violation("other", f"single-file fileset find({G.iso(s)}, {G.iso(e)}) = {got}, expected {want}", case)
+        if use_model:
+            line = f"single {int(exists)} {G.us(c0)} {G.us(c1)} {'-' if s is None else G.us(s)} {'-' if e is None else G.us(e)} {int(nf)}"
+            m = ck.driver([line])[0]
+            if m != got:
+                ck.disagree(f"single: model '{m}' vs code '{got}'", case)
     finally:
         shutil.rmtree(root, ignore_errors=True)
+
+
+def single_cases(ck, rng, scratch, use_model=True):
+    """single-file filesets: the coverage comes from time_coverage"""
+    exists = rng.random() < 0.85
+    o = G.gen_origin(rng, G.Template([], "{year}.dat"))
+    cov = None if rng.random() < 0.3 else (o, o + rng.choice([dt.timedelta(0), dt.timedelta(hours=5), dt.timedelta(days=40)]))
+    c0, c1 = (G.MIN, G.MAX) if cov is None else cov
+    for _ in range(4):
+        s = rng.choice([None, c0, c1, c0 + G.US] + ([c1 + G.US, c0 - dt.timedelta(days=2)] if cov else []))
+        e = rng.choice([None, c0, c0 + G.US, c1, s] + ([c1 + dt.timedelta(days=2)] if cov else []))
+        run_single(ck, scratch, {"op": "single", "exists": exists, "cov": [G.iso(c0), G.iso(c1)] if cov else None,
+                                 "start": G.iso(s), "end": G.iso(e), "nferr": rng.random() < 0.5}, use_model)
 
 
 def calendar_cases(ck, rng, n):
@@ -495,7 +539,10 @@ def calendar_cases(ck, rng, n):
 # ---------------------------------------------------------------- corpus / exploration
 def run_case_json(ck, c, scratch, use_model=True):
     import random
-    if c.get("op") == "single" or c.get("op") == "cal":
+    if c.get("op") == "single":
+        run_single(ck, scratch, c, use_model)
+        return
+    if c.get("op") in ("cal", "mk"):
         return
     tpl = G.Template.from_json(c["template"])
     files = [G.File.from_json(o) for o in c["files"]]
@@ -511,7 +558,8 @@ def run_case_json(ck, c, scratch, use_model=True):
             if k in x:
                 x[k] = G.from_iso(x[k])
         extra.append(x)
-    run_population(ck, random.Random(0), scratch, tpl, files, tc, queries, extra, use_model, zipfs=bool(c.get("zip")), tag="corpus")
+    run_population(ck, random.Random(0), scratch, tpl, files, tc, queries, extra, use_model, zipfs=bool(c.get("zip")), tag="corpus",
+                   ddirs=c.get("decoy_dirs") or [])
 
 
 def explore(ck, n, scratch, use_model=True, zip_share=0.0):
@@ -525,6 +573,11 @@ def explore(ck, n, scratch, use_model=True, zip_share=0.0):
         run_population(ck, rng, scratch, tpl, files, tc, queries, extra, use_model, zipfs=rng.random() < zip_share)
         if i % 10 == 0:
             single_cases(ck, rng, scratch, use_model)
+        if i % 8 == 0:
+            # agree-only: misplaced files, directories that are not dates (ValueError arm of _check_placeholders)
+            tpl, files = G.gen_misplaced(rng)
+            run_population(ck, rng, scratch, tpl, files, None, gen_queries(rng, tpl, files, 6), gen_extra(rng, tpl, files),
+                           use_model, tag="misplaced")
 
 
 def debug_dump(ck):
@@ -562,7 +615,7 @@ def main():
             run_case_json(ck, c, scratch, use_model)
         if use_model:
             calendar_cases(ck, ck.rng, ck.budget(300, 5000))
-        explore(ck, ck.budget(300, 5000), scratch, use_model, zip_share=0.0 if ck.tier == "quick" else 0.15)
+        explore(ck, ck.budget(300, 5000), scratch, use_model, zip_share=0.04 if ck.tier == "quick" else 0.15)
         if ck.broken() and not ck.violations:
             explore(ck, 1500, scratch, use_model=False)
     finally:
